@@ -101,16 +101,34 @@ func insHistory(id string, rng *rand.Rand, lt *layoutTables, actions []string) M
 		{Broadcast: "192.168.1.255:60000", Devices: []devCfg{{Name: "alpha", Serial: target, Addr: "192.168.1.100:60000", Proto: "tcp"}}},
 		{Bind: "192.168.1.10:0", Broadcast: "192.168.1.255:60005", Devices: []devCfg{{Name: "gamma", Serial: 201020304, Addr: "192.168.1.102:60000", Proto: "udp"}, {Name: "alpha", Serial: target, Addr: "", Proto: "udp"}}},
 	}
+	// ... and lists with entries that are no controllers (id 0) in front of / between / behind the real ones
+	spare := devCfg{Name: "spare", Serial: 0, Addr: "192.168.1.99:60000", Proto: "udp"}
+	cfgChoices = append(cfgChoices,
+		clientCfg{Devices: []devCfg{spare, cfgChoices[0].Devices[0], cfgChoices[0].Devices[1]}},
+		clientCfg{Broadcast: "192.168.1.255:60000", Devices: []devCfg{cfgChoices[0].Devices[0], spare, cfgChoices[0].Devices[1], spare}})
 	cfg := cfgChoices[rng.Intn(len(cfgChoices))]
 	cfg.Listen = "127.0.0.1:60001"
 	d := &stubDriver{reuse: true}
-	u, devices := cfg.build(func(uhppote.Driver) uhppote.Driver { return d })
-	ev = append(ev, M{"ev": "construct", "cfg": projCfgRouted(cfg)})
+	// the list the caller hands to the constructor is the caller's: it reads the same afterwards
+	projCaller := func(ds []uhppote.Device) []any {
+		out := []any{}
+		for _, x := range ds {
+			out = append(out, M{"name": x.Name, "serial": u32(x.DeviceID), "addr": x.Address.String(), "proto": x.Protocol, "doors": fmt.Sprint(x.Doors)})
+		}
+		return out
+	}
+	devices := cfg.deviceList()
+	if rng.Intn(2) == 0 {
+		devices = append(make([]uhppote.Device, 0, len(devices)+3), devices...) // spare capacity behind the list
+	}
+	callerBefore := projCaller(devices)
+	u := cfg.buildFrom(devices, func(uhppote.Driver) uhppote.Driver { return d })
+	ev = append(ev, M{"ev": "construct", "cfg": projCfgRouted(cfg), "caller_before": callerBefore, "caller_after": projCaller(devices)})
 	g := &G{r: rng, inDomain: true}
 	gOut := &G{r: rng, inDomain: false}
 	held := []*heldVal{}
 	serials := []uint32{target, 303986753, 201020304, 99}
-	ops := []string{"GetDevice", "GetCardByIndex", "GetStatus", "GetTimeProfile", "GetListener", "GetEvent", "PutCard", "SetTimeProfile", "AddTask", "ActivateKeypads", "GetDevices", "GetTime"}
+	ops := []string{"GetDevice", "GetCardByIndex", "GetStatus", "GetTimeProfile", "GetListener", "GetEvent", "PutCard", "SetTimeProfile", "AddTask", "ActivateKeypads", "GetDevices", "GetTime", "SetDoorPasscodes"}
 
 	for _, a := range actions {
 		switch a {
@@ -147,7 +165,7 @@ func insHistory(id string, rng *rand.Rand, lt *layoutTables, actions []string) M
 			ser := []any{}
 			have := u.DeviceList()
 			for _, dc := range cfg.Devices {
-				if _, ok := have[dc.Serial]; ok {
+				if _, ok := have[dc.Serial]; ok && dc.Serial != 0 {
 					ser = append(ser, u32(dc.Serial))
 				}
 			}
